@@ -8,6 +8,7 @@
 # @author Davide Brunato <brunato@sissa.it>
 #
 import json
+import re
 from copy import copy
 from collections.abc import Iterator, Iterable
 from decimal import Decimal
@@ -266,6 +267,20 @@ def iter_normalized(elements: Iterable[Any],
             yield sep.join(chunks)
 
 
+def escape_carriage_returns(data: bytes) -> bytes:
+    """
+    ElementTree writes a carriage return of the text content as is, and an XML parser
+    reads it as a line feed: write it as a character reference, except in comments
+    and processing instructions (that have no character references).
+    """
+    if b'\r' not in data:
+        return data
+    return b''.join(
+        part if part.startswith((b'<!--', b'<?')) else part.replace(b'\r', b'&#13;')
+        for part in re.split(br'(<!--.*?-->|<\?.*?\?>)', data, flags=re.DOTALL)
+    )
+
+
 def serialize_to_xml(elements: Iterable[Any],
                      etree_module: Optional[ModuleType] = None,
                      token: Optional['XPathToken'] = None,
@@ -327,9 +342,10 @@ def serialize_to_xml(elements: Iterable[Any],
             )
         except TypeError:
             ck = etree_module.tostring(elem, encoding='utf-8', method=method)
-            chunks.append(ck.decode('utf-8'))
+            chunks.append(escape_carriage_returns(ck).decode('utf-8'))
         else:
             data = b''.join(cks)  # chunks are pieces of the output, not lines
+            data = escape_carriage_returns(data)
             if data.startswith(b'<?'):
                 # only the quotes of the XML declaration are normalized, not those in the content
                 end = data.index(b'?>')
